@@ -321,9 +321,23 @@ func ZZ_C12_H4() {
 		e.NoMethod(mk(500))
 	}
 	var mw []int
-	for i := 0; i < nUse; i++ {
-		e.Use(mk(100 + i))
-		mw = append(mw, 100+i)
+	if zz.Choose("useFromCallerSlice", 2) == 1 {
+		// the middleware comes from a slice the caller keeps using (spare capacity, later
+		// overwritten): the engine's chain must not alias it
+		own := make([]app.HandlerFunc, 0, nUse+2)
+		for i := 0; i < nUse; i++ {
+			own = append(own, mk(100+i))
+			mw = append(mw, 100+i)
+		}
+		e.Use(own...)
+		own[0] = mk(900)
+		own = append(own, mk(901))
+		zz.Cover("caller-slice", true)
+	} else {
+		for i := 0; i < nUse; i++ {
+			e.Use(mk(100 + i))
+			mw = append(mw, 100+i)
+		}
 	}
 	if noRouteAt == 2 {
 		e.NoRoute(mk(400))
